@@ -171,7 +171,7 @@ func init() {
 		return []string{"done"}
 	}
 	checkers["C14"] = checker{
-		rule: "for each decoder entry point (signature database/list/data, authentication descriptor, WIN_CERTIFICATE(_UEFI_GUID), supported-signature list, load option + device path + Format of every node, UTF-16 string, ReadNullString, Efistring, GUID text/bytes, PEM key/certificate, the typed accessors of efivarfs and the legacy efi/attributes functions on an in-memory file, testfs.WriteVar): valid captures (key files of every kind: RSA, ECDSA and Ed25519 in PKCS#8, PKCS#1, SEC1), every truncation of small valid inputs, size fields set to 0/15/16/huge, device paths without end node, partition formats 0 and 3..255, expanded ACPI, empty and odd-length UTF-16, random bytes; one sandboxed worker call per (entry point, input) reporting return/panic/exit/timeout and the TotalAlloc delta; R_C14 (extracted check_safety) requires a return and TotalAlloc <= 64*|input| + 32 MiB; plus the Coq obligation over the termination sites regenerated by the go/types translator; non-trivial = non-empty input, distinct by (entry, input) hash",
+		rule: "for each decoder entry point (signature database/list/data, authentication descriptor, WIN_CERTIFICATE(_UEFI_GUID), supported-signature list, load option + device path + Format of every node, UTF-16 string, ReadNullString, Efistring, GUID text/bytes, PEM key/certificate, the typed accessors of efivarfs and the legacy efi/attributes functions on an in-memory file, testfs.WriteVar): valid captures (key files of every kind: RSA, ECDSA and Ed25519 in PKCS#8, PKCS#1, SEC1), every truncation of small valid inputs, size fields set to 0/15/16/huge, list headers announcing millions of entries behind which nothing follows, device paths without end node, partition formats 0 and 3..255, expanded ACPI, empty and odd-length UTF-16, random bytes; one sandboxed worker call per (entry point, input) reporting return/panic/exit/timeout and the TotalAlloc delta; R_C14 (extracted check_safety) requires a return and TotalAlloc <= 64*|input| + 32 MiB; plus the Coq obligation over the termination sites regenerated by the go/types translator; non-trivial = non-empty input, distinct by (entry, input) hash",
 		run:  runC14,
 	}
 }
@@ -185,6 +185,16 @@ func c14Seeds(rng *rand.Rand) map[string][][]byte {
 	for i := 0; i < 6; i++ {
 		s, _ := genWfStream(rng, 3, 100)
 		add("sigdb", s)
+	}
+	// list headers whose size fields agree with each other but announce millions of entries that are not there
+	for _, hs := range [][3]uint32{{16, 4194304, 0}, {16, 268435454, 0}, {48, 1000000, 1}, {48, 89478484, 1}, {17, 100000000, 0}, {1000, 4000000, 0}} {
+		t := gX509
+		if hs[2] == 1 {
+			t = gSHA256
+		}
+		hdr := encList(t, 28+hs[0]*hs[1], 0, hs[0], nil, nil)
+		add("sigdb", hdr)
+		add("sigdb", append(append([]byte{}, hdr...), randBytes(rng, int(hs[0]))...))
 	}
 	fs, _ := filepath.Glob("/repo/tests/data/signatures/varsign/*.auth")
 	for _, f := range fs {
